@@ -302,19 +302,23 @@ add("nrpn_twin", "pnm::twin", ["C09", "C10", "C11"], "witness twin", expect="wit
 prop("C12",
      bounds="(a) one-step induction: every valid abstract state of the family x every timeout "
             "(u64 s, ns) x every time x every Control Change / poll / reset, post-state compared with the "
-            "scanner rebuilt from the advanced observer; families: quick = step channel alone (SIM) and "
-            "with its xor-8 / xor-1 neighbours (TRI); thorough adds ALL16 where it finishes; (b) literal "
+            "scanner rebuilt from the advanced observer; families: SIM(c) = only the step channel arbitrary (all 16 "
+            "channels, quick) and ALL16 = all 16 channels simultaneously arbitrary (quick: step channels 0, 15 "
+            "and one VERIF_SEED-chosen; thorough: all 16), the step channel generated last on a shared base "
+            "plus an order lemma that this equals the canonical concretisation; (b) literal "
             "sentences of the documented grammar: number selection in either order + up to 3 units with "
             "symbolic early polls; (c) encode/feed/poll round trip of every ParameterNumberMessage in "
             "either byte order from every family state; unwind 17",
-     outside="interference that needs four or more simultaneously non-initial channels (quick); "
-             "sentences longer than 3 units are covered only through the induction step")
+     outside="quick tier: an interference between channels that shows only when the step channel is none of "
+             "0, 15 and the seed-chosen one (thorough: none); sentences longer than 3 units are covered only "
+             "through the induction step")
 prop("C13",
-     bounds="poll step from every valid abstract state of the family (SIM, TRI; thorough: ALL16) with "
+     bounds="poll step from every valid abstract state of the family (SIM x 16, ALL16 for 3 channels; "
+            "thorough: ALL16 x 16) with "
             "symbolic now >= arrival and symbolic timeout over the full Duration domain (0, tiny, "
             "u64::MAX seconds); feed at two arbitrary instants returns identical outputs; unwind 17",
-     outside="the real std::time::Instant (replaced by the mock clock hook); four or more "
-             "simultaneously non-initial channels in the quick tier")
+     outside="the real std::time::Instant (replaced by the mock clock hook); quick tier: multi-channel "
+             "states only for step channels 0, 15 and the seed-chosen one")
 prop("C14",
      bounds="feed / poll / reset step from every valid abstract state of the family with the C14 clauses "
             "asserted on (pre-state, event, real outputs) independently of the observer's transition "
@@ -323,11 +327,12 @@ prop("C14",
      outside="as C12")
 prop("C15",
      bounds="all three scanners: post-state equals the observer with ONLY the addressed channel advanced, "
-            "for families CC14: ALL16; (N)RPN: TRI (quick) / ALL16 (thorough); polling: SIM+TRI (quick) / "
-            "ALL16 (thorough); output channel = input channel; system messages (all 16 status bytes "
+            "for families CC14: ALL16; (N)RPN: TRI (quick) / ALL16 (thorough); polling: SIM x 16 + ALL16 for 3 step channels "
+            "(quick) / ALL16 x 16 (thorough); output channel = input channel; system messages (all 16 status bytes "
             "0xF0-0xFF x all data) report nothing and leave every family state equal; literal 4-event "
             "interleavings on channel pairs vs. own scanners",
-     outside="polling / (N)RPN quick tier: interference needing four or more non-initial channels")
+     outside="(N)RPN quick tier: interference needing four or more non-initial channels; polling quick "
+             "tier: interference visible only for step channels other than 0, 15 and the seed-chosen one")
 prop("C16",
      bounds="from every family state of each scanner: every non-Control-Change message (status symbolic, "
             "all data) and every Control Change with a non-contributing controller number (all values): "
@@ -355,19 +360,20 @@ def _pick(n):
 
 KINDS = ["7bit", "14bit", "increment", "decrement"]
 for _c in range(16):
-    for _fam, _mask in (("sim", 1 << _c), ("tri", _mask3(_c)), ("all16", 0xFFFF)):
-        _tier = "quick" if _fam != "all16" else "thorough"
+    # families: SIM(c) = only the step channel arbitrary (all 16 instances in the quick tier);
+    # ALL16 = all 16 channels arbitrary (quick: channels 0, 15 and one seed-chosen; thorough: all)
+    for _fam, _mask in (("sim", 1 << _c), ("all16", 0xFFFF)):
         _pk = None if _fam == "sim" else (lambda seed, c=_c: _pick(1)(seed, c))
-        _cost = {"sim": 60, "tri": 120, "all16": 2000}[_fam]
+        _cost = {"sim": 60, "all16": 200}[_fam]
         add("poll_step_feed_%s_ch%02d" % (_fam, _c), "poll::step_feed",
             ["C12", "C13", "C14", "C15", "C16", "C04", "C18"],
             "family %s (mask 0x%04x): every abstract state x timeout x time x every Control Change on "
             "channel %d" % (_fam, _mask, _c), args="0x%04x, %d" % (_mask, _c), unwind=17, cost=_cost,
-            tier=_tier, timeout=10800, seed_pick=_pk)
+            timeout=5400, seed_pick=_pk)
         add("poll_step_poll_%s_ch%02d" % (_fam, _c), "poll::step_poll",
             ["C13", "C12", "C14", "C15", "C18"],
             "family %s (mask 0x%04x): every abstract state x timeout x time: poll(%d)" % (_fam, _mask, _c),
-            args="0x%04x, %d" % (_mask, _c), unwind=17, cost=_cost * 0.6, tier=_tier, timeout=10800,
+            args="0x%04x, %d" % (_mask, _c), unwind=17, cost=_cost * 0.9, timeout=5400,
             seed_pick=_pk)
     add("poll_time_independent_ch%02d" % _c, "poll::feed_time_independent", ["C13", "C18"],
         "channel %d arbitrary: feed at two arbitrary instants returns identical outputs" % _c,
@@ -383,29 +389,27 @@ for _c in range(16):
         "channel %d: literal sentences of the documented grammar, 3 units, early polls, non-contributing "
         "messages, symbolic times and timeout, final poll" % _c, args="%d" % _c, unwind=17, cost=150,
         seed_pick=(lambda seed, c=_c: _pick(0)(seed, c)), timeout=3600)
-    add("poll_order_lemma_tri_ch%02d" % _c, "poll::order_lemma", ["C15", "C12", "C13", "C14"],
-        "family tri: generating channel %d last equals the canonical concretisation" % _c,
-        args="0x%04x, %d" % (_mask3(_c), _c), unwind=17, cost=100,
-        seed_pick=(lambda seed, c=_c: _pick(1)(seed, c)))
     add("poll_order_lemma_all16_ch%02d" % _c, "poll::order_lemma", ["C15", "C12", "C13", "C14"],
         "family all16: generating channel %d last equals the canonical concretisation" % _c,
-        args="0xFFFF, %d" % _c, unwind=17, cost=2000, tier="thorough", timeout=10800)
+        args="0xFFFF, %d" % _c, unwind=17, cost=300, timeout=5400,
+        seed_pick=(lambda seed, c=_c: _pick(1)(seed, c)))
 add("poll_step_other", "poll::step_other", ["C16", "C15", "C12", "C18"],
     "channels 0,5,10,15 arbitrary x every message that is not a Control Change: nothing reported, state equal",
     args="0x8421", unwind=17, cost=120)
 add("poll_step_other_all16", "poll::step_other", ["C16", "C15", "C18"],
     "ALL16 x every message that is not a Control Change: nothing reported, state equal",
-    args="0xFFFF", unwind=17, cost=1500, tier="thorough", timeout=10800)
+    args="0xFFFF", unwind=17, cost=400, tier="thorough", timeout=5400)
 add("poll_reset_and_copy", "poll::reset_and_copy", ["C17", "C13", "C12", "C18"],
     "channels 0,5,10,15 arbitrary, timeout symbolic: reset() == new(timeout); default() == new(0); "
     "copies evolve identically", args="0x8421", unwind=17, cost=120)
 add("poll_reset_and_copy_all16", "poll::reset_and_copy", ["C17", "C18"],
     "ALL16, timeout symbolic: reset() == new(timeout); copies evolve identically",
-    args="0xFFFF", unwind=17, cost=1500, tier="thorough", timeout=10800)
+    args="0xFFFF", unwind=17, cost=400, tier="thorough", timeout=5400)
 for (_a, _b) in [(0, 1), (7, 8), (15, 0), (3, 11)]:
     add("poll_interleave_%d_%d" % (_a, _b), "poll::interleave", ["C15", "C18"],
-        "literal: 4 symbolic events (feed or poll, symbolic times) on channels %d/%d interleaved vs. own "
-        "scanners" % (_a, _b), args="%d, %d" % (_a, _b), unwind=17, cost=100)
+        "literal: number selection on both channels, then 2 symbolic events (data entry MSB/LSB, increment "
+        "or poll, symbolic times) on channels %d/%d interleaved vs. own scanners" % (_a, _b),
+        args="%d, %d" % (_a, _b), unwind=17, cost=150, tier="quick" if _a in (0, 7) else "thorough")
 add("poll_twin", "poll::twin", ["C12", "C13", "C14", "C15", "C16", "C17"], "witness twin",
     expect="witness_fail", unwind=17)
 
